@@ -116,13 +116,15 @@ def c19_scenarios(ctx, abstract, tier):
             if a["gitignore"]:
                 files.append({"p": "proj/.gitignore", "c": GITIGNORES[var]})
                 files.append({"p": "proj/sub/deep/.gitignore", "c": "tmp/" + GITIGNORES[var]})
+                files.append({"p": "other/.gitignore", "c": "o" + GITIGNORES[var]})
             if a["dotenv"]:
                 files.append({"p": "proj/.env", "c": "FROM_DOTENV=1\n"})
-            cwd = "proj" if a["cwd"] == "root" else "proj/sub/deep"
+            cwd = {"root": "proj", "nested": "proj/sub/deep", "elsewhere": "other"}[a["cwd"]]
             steps = []
             if a["cache"]:
                 steps.append({"cwd": "proj", "argv": ["hello"], "env": {}})           # warm the cache first (only counts if it works)
-            steps.append({"cwd": cwd, "argv": [FLAG_ARGV[f] for f in sorted(a["flags"])], "env": {}})
+            steps.append({"cwd": cwd, "argv": [FLAG_ARGV[f] for f in sorted(a["flags"])] + (["--spokfile", "@HOME@/proj/spokfile"] if a["cwd"] == "elsewhere" else []),
+                          "env": {}})
             scen.append({"id": len(scen) + 1, "files": files, "steps": steps})
             meta.append(a)
     return scen, meta
@@ -133,7 +135,7 @@ def rec_c19(s, a, r):
     for k, st in enumerate(r["steps"]):
         last = k == len(r["steps"]) - 1
         act = a["action"] if last else "run"
-        cwdp = (["proj"] if a["cwd"] == "root" else ["proj", "sub", "deep"]) if last else ["proj"]
+        cwdp = {"root": ["proj"], "nested": ["proj", "sub", "deep"], "elsewhere": ["other"]}[a["cwd"]] if last else ["proj"]
         sc.append({"action": act, "kind": a["kind"], "proj": ["proj"], "cwd": cwdp})
         srec.append(step_rec(st, lines=True))
     return {"rel": "C19", "id": s["id"], "scen": sc, "steps": srec}
@@ -265,8 +267,9 @@ def run_c09b(ctx):
 
 
 # ------------------------------------------------------------------ C13
-VALS = ["v", "a b", "$HOME", "{x}", "}}", "a'b", "", "{{.AMBV}} z", "{{ x"]
-NAMESV = ["FRESHV", "AMBV", "DOTV", "BOTHV"]
+VALS = ["v", "a b", "$HOME", "{x}", "}}", "a'b", "", "{{.AMBV}} z", "{{ x", "a\\b", "100%", "k=v"]
+# HOME and LANG are set in the ambient environment of every run (the sandbox HOME, LANG=C)
+NAMESV = ["FRESHV", "AMBV", "DOTV", "BOTHV", "HOME", "LANG"]
 AMBIENT = {"AMBV": "ambient-value", "BOTHV": "ambient-both", "LAYBOTH": "lay-ambient", "LAYAMB": "lay-ambient-only"}
 DOTENV = "DOTV=dotenv-value\nBOTHV=dotenv-both\nLAYBOTH=lay-dotenv\nLAYDOT=lay-dotenv-only\n"
 # layering of variables the spokfile does NOT define (beyond C13; recorded as observed behaviour, never a verdict):
@@ -392,13 +395,13 @@ def c12_scenarios(tier, seed):
     tree = ["bin/tool", "bin/keep.txt", "build/a.o", "build/b.o", "build/readme.md", "dist/pkg/x.tar", "dist/pkg/sub/y.tar", "src/main.go", "src/a.o", "out.txt", "notes.md",
             ".hidden/z.o", "decoy/out.txt", "build.log", "out.txt.bak", "dist/pkg.sha", ".x_cache/f.bin", "my_cache/f.bin", "my_cache/sub/g.bin", "cache.db", "zcache"]
     kinds = ["litfile", "litdir", "named_rel", "named_join", "glob", "glob_none", "missing", "litdir_build", "litfile_buildlog", "glob_top", "litfile_bak", "litfile_sha",
-             "lit_linkdir", "named_linkfile",
+             "lit_linkdir", "named_linkfile", "lit_dotslash", "lit_trailing", "lit_updown", "named_abs_inside", "litdir_dist", "lit_cachedir",
              "named_empty", "named_dot", "lit_parent", "named_abs_outside", "glob_spok", "lit_spokfile"]
     n = 400 if tier == "quick" else 20000
     for it in range(n):
         present = [p for p in tree if rnd.random() < 0.75]
         nout = rnd.randint(0, 5)
-        chosen = [rnd.choice(kinds[:14] if rnd.random() < 0.8 else kinds) for _ in range(nout)]
+        chosen = [rnd.choice(kinds[:20] if rnd.random() < 0.8 else kinds) for _ in range(nout)]
         cwd_nested = rnd.random() < 0.3
         elsewhere = (not cwd_nested) and rnd.random() < 0.2      # run from an unrelated directory with --spokfile
         has_clean = rnd.random() < 0.15
@@ -413,6 +416,19 @@ def c12_scenarios(tier, seed):
                 outs.append('"current"'); des.append(["proj", "current"]); alt.append(["proj", "current"])
             elif kind == "named_linkfile":
                 vars_.append(("LATEST%s" % "ABCDE"[k], '"latest.txt"')); outs.append("LATEST%s" % "ABCDE"[k]); des.append(["proj", "latest.txt"]); alt.append(cwdp + ["latest.txt"])
+            elif kind == "lit_dotslash":         # other spellings of a path inside the project
+                outs.append('"./out.txt"'); des.append(["proj", "out.txt"]); alt.append(["proj", "out.txt"])
+            elif kind == "lit_trailing":
+                outs.append('"dist/pkg/"'); des.append(["proj", "dist", "pkg"]); alt.append(["proj", "dist", "pkg"])
+            elif kind == "lit_updown":
+                outs.append('"build/../out.txt.bak"'); des.append(["proj", "out.txt.bak"]); alt.append(["proj", "out.txt.bak"])
+            elif kind == "named_abs_inside":
+                vars_.append(("INSIDE%s" % "ABCDE"[k], '"@HOME@/proj/build.log"')); outs.append("INSIDE%s" % "ABCDE"[k])
+                des.append(["proj", "build.log"]); alt.append(["proj", "build.log"])
+            elif kind == "litdir_dist":          # an output that contains another output
+                outs.append('"dist"'); des.append(["proj", "dist"]); alt.append(["proj", "dist"])
+            elif kind == "lit_cachedir":         # the cache directory named as an output: it goes anyway
+                outs.append('".spok"')
             elif kind == "missing":
                 outs.append('"nothere/file.bin"'); des.append(["proj", "nothere", "file.bin"]); alt.append(["proj", "nothere", "file.bin"])
             elif kind == "named_rel":
